@@ -737,6 +737,7 @@ std::optional<SaslHtMechanism> SaslHtMechanism::fromString(QStringView string)
         if (string.startsWith(ianaHashAlgorithms.at(i))) {
             algorithm = IanaHashAlgorithm(i);
             string = string.mid(ianaHashAlgorithms.at(i).size());
+            break;
         }
     }
     if (!algorithm) {
